@@ -106,6 +106,12 @@ func (a *answers) pick(rng *rand.Rand, cls string) string {
 	if cls == "accepted" {
 		return "ok"
 	}
+	if cls == "rejected" && rng.Intn(3) == 0 {
+		// a reason outside every table of chain/errors.go (wrapped in chain.ErrUndefined by the real mapping code)
+		l := []string{"b:connection+reset+by+peer", "n:something+unexpected", "b:i/o+timeout", "n:i/o+timeout",
+			"b:-25:+TX+decode+failed", "n:backend+is+shutting+down"}
+		return l[rng.Intn(len(l))]
+	}
 	l := a.byClass[cls]
 	return l[rng.Intn(len(l))]
 }
@@ -749,6 +755,13 @@ func (g *gen) scenChain() core.Case {
 		g.add(fmt.Sprintf("lease op=%s:0 id=1 dur=600", a))
 	}
 	victim := chain[g.rng.Intn(len(chain))]
+	if g.rng.Intn(2) == 0 {
+		// the payee of a chain member pays the wallet back out of the output it received: an unconfirmed child of
+		// that member through an output that is NOT a wallet credit
+		par := chain[g.rng.Intn(len(chain))]
+		g.recv(1, []string{par + ":0"})
+		g.tag("child-via-foreign-output")
+	}
 	cls := []string{"rejected", "known", "confirmed", "mempool", "rejected"}[g.rng.Intn(5)]
 	g.tag("chain-" + cls)
 	switch g.rng.Intn(4) {
